@@ -486,7 +486,7 @@ func TestMonitorLatest(t *testing.T) {
 	})
 }
 
-const ruleCadence = "real Cluster with a recording monitor and one or two informers: ping interval 400-800 ms, informer TTL 1-2 s, PublishMetric failing for 0-2 generated runs of 1-3 consecutive informer attempts; observed for 3.5 s; oracle: with at most one failed attempt in between, the next publication of a name comes no later than the previous successfully published one expires; two consecutive attempts are never further apart than half the metric's lifetime plus 400 ms; at the end of the observation the last attempt is no older than that (the loop is alive); ping TTL = 2 x interval; an apparent violation must reproduce in 3 consecutive runs of the same configuration; non-trivial = at least 3 publications per name observed; distinct by configuration"
+const ruleCadence = "real Cluster with a recording monitor and one or two informers: ping interval 400-800 ms, informer TTL 1-2 s, PublishMetric failing for 0-2 generated runs of 1-3 consecutive informer attempts and, in a third of the cases, for one ping attempt; observed for 3.5 s; oracle: with at most one failed attempt in between, the next publication of a name comes no later than the previous successfully published one expires; two consecutive attempts are never further apart than half the metric's lifetime plus 400 ms; at the end of the observation the last attempt is no older than that (the loop is alive); ping TTL = 2 x interval; an apparent violation must reproduce in 3 consecutive runs of the same configuration; non-trivial = at least 3 publications per name observed; distinct by configuration"
 
 func TestCadence(t *testing.T) {
 	leg := ev.L("cadence", ruleCadence)
@@ -507,25 +507,31 @@ func TestCadence(t *testing.T) {
 		}
 		// a second informer in half of the cases (a peer usually runs several)
 		extra := rapid.Bool().Draw(t, "secondInformer")
+		// one publish error for the ping (its 2nd-4th attempt) in a third of the cases
+		pingFailAt := 0
+		if rapid.IntRange(0, 2).Draw(t, "pingFails") == 0 {
+			pingFailAt = rapid.IntRange(2, 4).Draw(t, "pingFailAt")
+		}
 		var lastMsg string
 		ok := false
 		var npub int
 		for attempt := 0; attempt < 3 && !ok; attempt++ {
-			lastMsg, npub = runCadence(pingMs, ttlMs, failAt, extra)
+			lastMsg, npub = runCadence(pingMs, ttlMs, failAt, extra, pingFailAt)
 			ok = lastMsg == ""
 			if !ok {
 				leg.Note("attempt %d: %s", attempt, lastMsg)
 			}
 		}
 		if !ok {
-			t.Fatalf("3 consecutive runs: %s (ping interval %d ms, informer TTL %d ms, failing informer attempts %v)", lastMsg, pingMs, ttlMs, failAt)
+			t.Fatalf("3 consecutive runs: %s (ping interval %d ms, informer TTL %d ms, failing informer attempts %v, failing ping attempt %d)", lastMsg, pingMs, ttlMs, failAt, pingFailAt)
 		}
-		leg.Case(fmt.Sprintf("ping=%dms ttl=%dms fail=%v second-informer=%v", pingMs, ttlMs, failAt, extra), npub >= 3)
+		leg.Case(fmt.Sprintf("ping=%dms ttl=%dms fail=%v second-informer=%v ping-fail=%d", pingMs, ttlMs, failAt, extra, pingFailAt), npub >= 3)
 	})
 }
 
-func runCadence(pingMs, ttlMs int, failAt map[int]bool, extra bool) (string, int) {
+func runCadence(pingMs, ttlMs int, failAt map[int]bool, extra bool, pingFailAt int) (string, int) {
 	infAttempts := 0
+	pingAttempts := 0
 	var extras []string
 	if extra {
 		extras = []string{"extra"}
@@ -534,6 +540,13 @@ func runCadence(pingMs, ttlMs int, failAt map[int]bool, extra bool) (string, int
 		cfg.MonitorPingInterval = time.Duration(pingMs) * time.Millisecond
 	}, BeforeStart: func(m *fakes.Monitor) {
 		m.FailPub = func(n int, mt *api.Metric) error {
+			if mt.Name == "ping" {
+				pingAttempts++
+				if pingAttempts == pingFailAt {
+					return fmt.Errorf("injected publish error")
+				}
+				return nil
+			}
 			if mt.Name != "boot" {
 				return nil
 			}
@@ -574,7 +587,13 @@ func runCadence(pingMs, ttlMs int, failAt map[int]bool, extra bool) (string, int
 			// with at most one failed attempt in between, the next attempt
 			// comes before the previous metric expires (a longer run of
 			// publish errors necessarily outlasts the metric)
-			if prev != nil && failsSinceOk <= 1 && r.at.After(prev.expire) {
+			// (the ping lives for two intervals and is republished every
+			// interval: it tolerates no failed attempt in between)
+			tolerated := 1
+			if name == "ping" {
+				tolerated = 0
+			}
+			if prev != nil && failsSinceOk <= tolerated && r.at.After(prev.expire) {
 				return fmt.Sprintf("metric %q published at +%v, after the previous one expired at +%v (%d failed attempts in between)", name, r.at.Sub(rs[0].at), prev.expire.Sub(rs[0].at), failsSinceOk), 0
 			}
 			// attempts never pause for longer than the republish period
